@@ -36,6 +36,9 @@ pub struct Mut {
     #[serde(default)]
     pub mentor: Option<usize>,
     pub room: Option<usize>,
+    /// the nullable field `nick` is cleared: null passed as a parameter
+    #[serde(default)]
+    pub nick_null: bool,
     /// the assigned scalar values are the ones the row was created with (an assignment that may change nothing)
     #[serde(default)]
     pub keep: bool,
@@ -60,6 +63,9 @@ fn shape(m: &Mut) -> String {
     }
     if m.age {
         v.push("age")
+    }
+    if m.nick_null {
+        v.push("nick-cleared")
     }
     if m.parent.is_some() {
         v.push("ref-add")
@@ -99,6 +105,9 @@ fn gen_mut(r: &mut Rng) -> Mut {
     }
     if r.chance(1, 8) {
         m.keep = true;
+    }
+    if !m.nick && r.chance(1, 7) {
+        m.nick_null = true;
     }
     m
 }
@@ -165,6 +174,16 @@ pub fn directed(property: &str) -> Vec<Trace> {
                 Step::Issue { m: Mut { mentor: Some(1), name: true, ..Default::default() } },
                 Step::Flush,
             ],
+        ),
+        mk(
+            "C16 one at a time (and on the stream): a nullable field is set, then cleared with a null parameter, then another field",
+            false,
+            vec![Step::Issue { m: nick.clone() }, Step::Flush, Step::Issue { m: Mut { nick_null: true, ..Default::default() } }, Step::Flush, Step::Issue { m: name.clone() }, Step::Flush],
+        ),
+        mk(
+            "C16 the same on the mutation stream",
+            true,
+            vec![Step::Issue { m: nick.clone() }, Step::Flush, Step::Issue { m: Mut { nick_null: true, ..Default::default() } }, Step::Flush, Step::Issue { m: name.clone() }, Step::Flush],
         ),
         mk("C16 two mutations pipelined on the mutation stream", true, vec![Step::Issue { m: name }, Step::Issue { m: nick }, Step::Flush]),
     ]
@@ -258,6 +277,10 @@ fn run(w: &mut World, cfg: &Cfg, steps: &[Step]) -> Result<(), String> {
                 if m.nick {
                     fields.push_str(" nick:$k");
                     p.insert("k".into(), if m.keep { "nick0".to_string() } else { format!("nick-m{i}") }.into());
+                }
+                if m.nick_null {
+                    fields.push_str(" nick:$kn");
+                    p.insert("kn".into(), serde_json::Value::Null);
                 }
                 if m.age {
                     fields.push_str(" age:$a");
@@ -421,6 +444,9 @@ fn run(w: &mut World, cfg: &Cfg, steps: &[Step]) -> Result<(), String> {
         }
         if m.nick {
             s.nick = Some(if m.keep { "nick0".to_string() } else { format!("nick-m{i}") });
+        }
+        if m.nick_null {
+            s.nick = None;
         }
         if m.age {
             s.age = if m.keep { 0 } else { 100 + i as i64 };
